@@ -143,3 +143,22 @@ def run(ctx):
                 kinds.add("other")
         ctx.check(kinds == {"close-without-open", "unclosed"}, "D4-BALANCE", NEW, "error-exits", "Err(Alternate) on '}' without '{' and on an unclosed '{'",
                   "Err(Alternate) exits are %s; expected exactly: '}' with an empty stack, and a non-empty stack at the end" % sorted(kinds), fn_span(body))
+
+    # ---- D4 (continued): every pattern containing '{' or '}' reaches that balance check, nothing else does (the dispatch table of
+    #      Pattern::new, shared with C05): a pattern with a stray '}' must not slip through as a plain string
+    import rules.c05 as c05
+    from check import Ctx, Record
+    sub = Ctx("C05", ctx.tier, ctx.fx)
+    sub.inline_set = ctx.inline_set
+    sub.desugar = bool(getattr(c05, "DESUGAR", False))
+    try:
+        c05.run(sub)
+        shared = [r for r in sub.records if r.rule == "D1-DISPATCH"]
+    except Exception:
+        shared = None
+    if not shared:
+        ctx.violation("D4-DISPATCH", NEW, "dispatch-table", "the dispatch table of Pattern::new could not be evaluated", "")
+    else:
+        for r in shared:
+            ctx.records.append(Record("D4-DISPATCH", r.item, r.instance, r.verdict, r.detail, r.span, False))
+
